@@ -22,6 +22,12 @@ FN1 = ["neg", "pos", "conj", "proj", "abs", "arg", "norm", "exp", "log", "log10"
 TYPES = ["float", "double"]
 PARTS = ["ADDSUB", "MUL", "DIV", "MISC"]
 MTYPES = ["F", "D", "I", "L"]       # float, double, int, long double (typedefs c10::ty_F ...)
+# part SCALAR: the scalar operand of x op s, s op x, x op= s, x = s has any standard arithmetic type (typedefs c10::sc_<token>;
+# same order as C10_STYPES in harness.cpp).  The types are split over NSGROUP binaries per T (index % NSGROUP).
+STYPES = ["bool", "char", "schar", "uchar", "wchar", "char16", "char32", "short", "ushort", "int", "uint", "long", "ulong", "llong",
+          "ullong", "float", "double", "ldouble"]
+NSGROUP = 3
+SCALAR_MACROS = ("XSRIGHT", "XSLEFT", "XCMPDS", "XASGS")
 
 
 # ---------------------------------------------------------------------------------------------------------
@@ -106,6 +112,19 @@ def entries():
     for op in OPS:
         for t1, t2 in [("F", "D"), ("D", "F"), ("I", "D"), ("D", "I")]:
             out.append(("MBIN", (op, t1, t2)))
+    # scalars of every arithmetic type (part SCALAR)
+    for st in STYPES:
+        for op in OPS:
+            for b1 in FLAGS:
+                for k1 in KINDS:
+                    out.append(("XSRIGHT", (op, k1, b1, st)))
+                for k1 in KINDS:
+                    out.append(("XSLEFT", (op, k1, b1, st)))
+                for k1 in ["KV", "KR"]:
+                    out.append(("XCMPDS", (op, k1, b1, st)))
+        for b1 in FLAGS:
+            for k1 in ["KV", "KR"]:
+                out.append(("XASGS", (k1, b1, st)))
     return out
 
 
@@ -128,6 +147,9 @@ def wellformed_on_pinned_tree(e):
         return k1 == k2 and b1 == b2
     if m in ("SLEFT", "SLEFT_INT"):
         op, k1, b1 = a
+        return op in ("mul", "div") or k1 == "KV"
+    if m == "XSLEFT":
+        op, k1, b1, st = a
         return op in ("mul", "div") or k1 == "KV"
     if m == "ASG":
         k1, b1, k2, b2 = a
@@ -177,6 +199,12 @@ def probe_text(e):
             fn = {"SRIGHT": "v_sright", "SLEFT": "v_sleft", "CMPDS": "v_cmpds"}[m.replace("_INT", "")]
             s = "int" if m.endswith("_INT") else t
             parts.append("template void %s<%s, op_%s, %s, %s, %s>%s" % (fn, t, op, k1, b1, s, io))
+        elif m in ("XSRIGHT", "XSLEFT", "XCMPDS"):
+            op, k1, b1, st = a
+            fn = {"XSRIGHT": "v_sright", "XSLEFT": "v_sleft", "XCMPDS": "v_cmpds"}[m]
+            parts.append("template void %s<%s, op_%s, %s, %s, sc_%s>%s" % (fn, t, op, k1, b1, st, io))
+        elif m == "XASGS":
+            parts.append("template void v_asgs<%s, %s, %s, sc_%s>%s" % (t, a[0], a[1], a[2], io))
         elif m == "STDF":
             parts.append("template void v_std<%s, op_%s, %s>%s" % (t, a[0], a[1], io))
         elif m in ("ASG", "EQ", "NE", "POWCC"):
@@ -243,34 +271,56 @@ def probe(e):
     return r is not None
 
 
+def representative(e):
+    """The ill-formed scalar-type entries (scalar + / - reference closure) fail for a reason that does not involve the scalar's
+    type (res += rhs between two different xcomplex instantiations), so they are not probed one by one (18 types x 8 entries): they
+    follow the probe of the same form with a scalar of type T.  If that form becomes well-formed they are all enabled, and should one
+    of them then not compile the build fails and the probe_all pass names it."""
+    if e[0] == "XSLEFT":
+        return ("SLEFT", e[1][:3])
+    return None
+
+
 def manifest(ctx=None, probe_all=False):
     """-> (enabled entries, optional entries found ill-formed, optional entries found well-formed)"""
     es = entries()
     required = [e for e in es if wellformed_on_pinned_tree(e)]
     optional = [e for e in es if not wellformed_on_pinned_tree(e)]
+    followers = [e for e in optional if representative(e) is not None]
+    optional = [e for e in optional if representative(e) is None]
     _probe_base_key()
     res = vlib.parallel([(lambda e=e: probe(e)) for e in optional], workers=min(16, vlib.NCPU))
-    newly = [e for e, r in zip(optional, res) if r]
-    ill = [e for e, r in zip(optional, res) if not r]
+    verdict = dict(zip(optional, res))
+    for e in followers:
+        verdict[e] = verdict[representative(e)]
+    optional = [e for e in es if e in verdict]
+    newly = [e for e in optional if verdict[e]]
+    ill = [e for e in optional if not verdict[e]]
     broken = []
     if probe_all:
-        res2 = vlib.parallel([(lambda e=e: probe(e)) for e in required], workers=min(16, vlib.NCPU))
-        broken = [e for e, r in zip(required, res2) if not r]
-    enabled = [e for e in es if e in set(required) | set(newly)]
+        todo = required + [e for e in followers if verdict[e]]
+        res2 = vlib.parallel([(lambda e=e: probe(e)) for e in todo], workers=min(16, vlib.NCPU))
+        broken = [e for e, r in zip(todo, res2) if not r]
+    on = set(required) | set(newly)
+    enabled = [e for e in es if e in on]
     return enabled, ill, newly, broken
 
 
 def gen_inc(enabled):
-    text = "// generated by checks/C10/check.py: the instantiations enabled for this run\n" + "\n".join(inc_line(e) for e in enabled) + "\n"
-    h = hashlib.sha256(text.encode()).hexdigest()[:16]
+    head = "// generated by checks/C10/check.py: the instantiations enabled for this run\n"
+    files = {"c10_variants.inc": head + "\n".join(inc_line(e) for e in enabled if e[0] not in SCALAR_MACROS) + "\n"}
+    for g in range(NSGROUP):
+        files["c10_scalar_%d.inc" % g] = head + "\n".join(inc_line(e) for e in enabled if e[0] in SCALAR_MACROS and STYPES.index(e[1][-1]) % NSGROUP == g) + "\n"
+    h = hashlib.sha256("\0".join(k + "\0" + files[k] for k in sorted(files)).encode()).hexdigest()[:16]
     d = os.path.join(vlib.BUILD, "C10_gen", h)
     os.makedirs(d, exist_ok=True)
-    p = os.path.join(d, "c10_variants.inc")
-    if not os.path.exists(p):
-        tmp = p + ".tmp%d" % os.getpid()
-        with open(tmp, "w") as f:
-            f.write(text)
-        os.replace(tmp, p)
+    for name, text in files.items():
+        p = os.path.join(d, name)
+        if not os.path.exists(p):
+            tmp = p + ".tmp%d" % os.getpid()
+            with open(tmp, "w") as f:
+                f.write(text)
+            os.replace(tmp, p)
     return d
 
 
@@ -278,18 +328,24 @@ def tag_of(t, part):
     return "c10-%s-%s" % (t, part.lower())
 
 
+SPARTS = ["SCALAR%d" % g for g in range(NSGROUP)]
+
+
 def build_part(gendir, t, part):
+    defines = ["C10_T=" + t, "C10_PART_" + part]
+    if part in SPARTS:
+        defines = ["C10_T=" + t, "C10_PART_SCALAR", "C10_SGROUP=" + part[len("SCALAR"):]]
     return vlib.compile_cxx(SRC, tag_of(t, part), std="c++14", opt="-O1", san="asan",
-                            flags=["-I" + gendir, "-I" + HERE, "-ffp-contract=off"], defines=["C10_T=" + t, "C10_PART_" + part])
+                            flags=["-I" + gendir, "-I" + HERE, "-ffp-contract=off"], defines=defines)
 
 
 def build_all(ctx, which=None):
     enabled, ill, newly, _ = manifest(ctx)
     gendir = gen_inc(enabled)
-    todo = [(t, p) for t in TYPES for p in PARTS] + [("double", "MIXED")]
+    todo = [(t, p) for t in TYPES for p in PARTS + SPARTS] + [("double", "MIXED")]
     todo = [(t, p) for t, p in todo if which is None or tag_of(t, p) == which]
     try:
-        bins = vlib.parallel([(lambda t=t, p=p: build_part(gendir, t, p)) for t, p in todo], workers=8)
+        bins = vlib.parallel([(lambda t=t, p=p: build_part(gendir, t, p)) for t, p in todo], workers=min(16, vlib.NCPU))
     except vlib.HarnessError as ex:
         # a REQUIRED instantiation stopped compiling?  name it.
         _, _, _, broken = manifest(ctx, probe_all=True)
@@ -303,7 +359,7 @@ def build_all(ctx, which=None):
 def run(ctx):
     t0 = time.time()
     bins, enabled, ill, newly = build_all(ctx)
-    ctx.note("build (probes + 9 harness parts): %.0fs" % (time.time() - t0))
+    ctx.note("build (probes + %d harness parts): %.0fs" % (len(bins), time.time() - t0))
     thorough = ctx.tier == "thorough"
     nshard = {"ADDSUB": 6, "MUL": 12, "DIV": 12, "MISC": 30} if thorough else {"ADDSUB": 1, "MUL": 2, "DIV": 2, "MISC": 3}
     deadline = int(time.time() + max(30, ctx.time_left() - 90))
@@ -314,6 +370,13 @@ def run(ctx):
             n = nshard[part]
             for k in range(n):
                 args = ["--tier", ctx.tier, "--shard", str(k), str(n), "--deadline", str(deadline)]
+                jobs.append(lambda b=bins[(t, part)], a=args, tg=tag_of(t, part): ctx.run_harness(b, a, tag=tg))
+    # part SCALAR: scalars of every arithmetic type, (a, b) in V^2 x the alphabet of the scalar's type
+    ns = 4 if thorough else 1
+    for part in SPARTS:
+        for t in TYPES:
+            for k in range(ns):
+                args = ["--tier", ctx.tier, "--shard", str(k), str(ns), "--deadline", str(deadline)]
                 jobs.append(lambda b=bins[(t, part)], a=args, tg=tag_of(t, part): ctx.run_harness(b, a, tag=tg))
     nm = 12 if thorough else 4
     for k in range(nm):
@@ -330,24 +393,41 @@ def run(ctx):
     ctx.stat("instantiations_enabled", sum(weight(e) for e in enabled))
     ctx.stat("instantiations_ill_formed", sum(weight(e) for e in ill))
     if ill:
+        # the scalar-type entries are listed once per (form, operation, closure kind, flag) when every scalar type is affected
+        names, by_rest = [], {}
+        for e in ill:
+            if e[0] in SCALAR_MACROS:
+                by_rest.setdefault((e[0], e[1][:-1]), []).append(e[1][-1])
+            else:
+                names.append(entry_name(e))
+        for (m, rest), sts in by_rest.items():
+            names.append("%s(%s,%s)" % (m, ",".join(rest), "<all %d scalar types>" % len(STYPES) if len(sts) == len(STYPES) else "{" + "|".join(sts) + "}"))
         ctx.note("%d of %d manifest instantiations (per T) are ill-formed on this tree and have no executions to check "
                  "(operator=, += and -= only compile between identical xcomplex types, so *= and /= on reference closures, "
-                 "+ and - with a reference-closure right operand, and unary + on reference closures do not compile): %s" % (
-                     len(ill), len(enabled) + len(ill), " ".join(entry_name(e) for e in ill)))
+                 "+ and - with a reference-closure right operand, scalar + and scalar - with a reference closure, and unary + on reference closures do not compile): %s" % (
+                     len(ill), len(enabled) + len(ill), " ".join(names)))
     for e in newly:
         ctx.note("instantiation %s is ill-formed on the pinned tree but compiles now: explored" % entry_name(e))
     ctx.rule = (
         "component alphabet V (|V| = %d per T in {float,double}: +-0, small integers and 0.5, inexact values 1/3 and -(1+eps), 2^+-BIG, max, min normal%s, +-inf, NaN); "
         "ALL operand pairs (a+bi, c+di) in V^4 are pushed through every enabled instantiation: + - * / as binary operators (3x3 closure kinds {T,T&,const T&} x 2x2 ieee flags), "
-        "the four compound forms, complex o scalar / scalar o complex / complex o= scalar (scalar of type T and int; all (a,b,c) in V^3), operands converted from and back to std::complex, "
+        "the four compound forms, complex o scalar / scalar o complex / complex o= scalar (scalar of type T and, for small integral c, int; all (a,b,c) in V^3), operands converted from and back to std::complex, "
         "the aliasing forms of every compound assignment (z op= z, z op= a (const) reference closure over z's own parts, a reference closure op= the value it aliases, two closures over one storage, z op= z.real() / z.imag(); all (a,b) in V^2), "
         "xcomplex and scalar assignment, == and !=, == and != between different value types (all ordered pairs of float/double/int/long double x 3x3 closure kinds, parts from a separate alphabet of values that are exact in the operand's type and in the common type, "
-        "including 0.1 and 1/3 in each precision, 2^24+1, 2^53+1), unary - and +, conj/proj/abs/arg/norm and 16 forwarded elementary functions (all (a,b) in V^2), pow in its three forms, and the real()/imag() accessor battery. "
+        "including 0.1 and 1/3 in each precision, 2^24+1, 2^53+1), "
+        "the mixed real/complex forms x op s, s op x, x op= s and x = s with a scalar of EVERY standard arithmetic type (part scalar: %d types - bool, the five character types, signed and unsigned short/int/long/long long, float, double, long double - "
+        "x 4 ops x closure kinds x ieee flags; all (a,b) in V^2 x the whole alphabet of the scalar's type: integers 0, 1, 3, 7, the top bit, max and for signed types -1, -2, min%s; floating 0, 1, -2, 0.5, 1.5, 3, -7, 0.1 in the scalar's precision, 2^20, inf%s; "
+        "%d scalar values in total per T, %d evaluations), unary - and +, conj/proj/abs/arg/norm and 16 forwarded elementary functions (all (a,b) in V^2), pow in its three forms, and the real()/imag() accessor battery. "
         "Oracles: exact result in __float128 with normwise tolerance 8 eps for finite well-scaled operands (IEEE mode also for divisors of extreme normal magnitude), the six Annex G rules of the statement for ieee_compliant=true, "
         "bit-identity (modulo NaN payload) with the value-closure instantiation and with std::complex for forwarded functions, == decided from the bit patterns, operands/referents after the operation. "
         "evaluations = executions of one instantiation on one operand tuple. distinct_nontrivial = distinct (T, operation, operand form cc/cs/sc, effective ieee flag, operand tuple) combinations - closure kinds NOT counted separately - "
         "that at least one value rule judged and that are non-trivial: for arithmetic both effective operands are not a zero; for ==/!= at least one part compares equal or is NaN; for functions the operand is not a zero; "
-        "for assignment/accessors the written value differs from the old one" % (nv, ", +-min subnormal, -max, 0.1, -pi, sqrt 2, 12345.678, -1/7, 5/3, the well-scaled limits 2^+-W and 2^(W+1), 2^+-(W/2), 1.1*2^(W-1), -1.7*2^-(W-1), the square overflow/underflow thresholds, 1.3*2^(BIG-3), -1.9*2^-(BIG-3), max/2, 1.5*2^(emax-2), pred(max), -(2+2eps)*min, -3*denorm_min" if thorough else ""))
+        "for assignment/accessors the written value differs from the old one" % (
+            nv, ", +-min subnormal, -max, 0.1, -pi, sqrt 2, 12345.678, -1/7, 5/3, the well-scaled limits 2^+-W and 2^(W+1), 2^+-(W/2), 1.1*2^(W-1), -1.7*2^-(W-1), the square overflow/underflow thresholds, 1.3*2^(BIG-3), -1.9*2^-(BIG-3), max/2, 1.5*2^(emax-2), pred(max), -(2+2eps)*min, -3*denorm_min" if thorough else "",
+            len(STYPES),
+            ", 2, 4, 5, 10, 100, 255, 256, top bit +- 1, max - 1, -3, -7, -100, -(top bit), min + 1" if thorough else "",
+            ", -0, -1, -0.75, 1/3 in the scalar's precision, -(1+eps), 12345.678, 2^-20, 1e10, 2^24+1, -inf, NaN" if thorough else "",
+            ctx.stats.get("scalar_values_double", 0), ctx.stats.get("scalar_type_evaluations", 0)))
     ctx.assumptions += [
         "__float128 (113-bit) complex arithmetic is the exact reference for finite operands; products of two T values are exact in it",
         "well-scaled := every non-zero part has magnitude in [2^-200, 2^200] (double) / [2^-30, 2^30] (float), so no intermediate of the textbook formulas over- or underflows; outside this band the non-IEEE mode is not judged by value",
@@ -357,6 +437,9 @@ def run(ctx):
         "only the three closure kinds (T,T), (T&,T&), (const T&,const T&) are instantiated; mixed kinds such as (T&, T) are not; different value types meet only in == / != (binary arithmetic between them is ill-formed on the pinned tree and probed)",
         "aliased compound assignments are judged by the same value rules with the operand on both sides, and outside the reach of the tolerance rule by equality (up to the sign of zeros) with the binary operator applied to two copies",
         "mixed-type == / != : a part is only used for an operand when it is exactly representable in that operand's type and in the type the built-in comparison converts to, so 'comparing both parts' has a single meaning (int 2^24+1 never meets a float)",
+        "scalars of another arithmetic type: the exact value of the scalar (every arithmetic type embeds exactly in x87 long double and in __float128) is the operand of the reference computation; "
+        "* and / are judged by the tolerance rule for every scalar whose conversion to T is well-scaled, + and - (and their compound forms) only for scalars that T holds exactly - otherwise the one rounding of the scalar that the property allows "
+        "can be magnified without bound by cancellation; x = s must hold exactly (T)s and a zero; a finite scalar whose conversion to T overflows (double 1e300 for float) is not used; half_float scalars (also xtl::is_arithmetic) are not instantiated",
         "harness built with g++ -O1 -ffp-contract=off, AddressSanitizer in recover mode as an additional oracle",
     ]
 
